@@ -401,6 +401,37 @@ def run(chk: Check) -> None:
             chk.fail("stream-overread", f"{raw.consumed} bytes consumed with max_content_length={mcl}", {"body_len": len(body), "mcl": mcl})
         if res == "ok" and (with_len or terminated) and form != _group(parse_qsl(body.decode(), keep_blank_values=True)):
             chk.fail("limits-change-result", "request form differs from the plain parse", {"body": body.hex(), "mcl": mcl})
+    # declared lengths of every SPELLING a server may pass through: huge values (more digits than any machine integer), zero
+    # padding, surrounding blanks: a declared length above max_content_length is refused (413) before a byte is read,
+    # whatever its width; the declared value is the integer the digits denote (C09_content_length_digits)
+    spellings = ["1" + "0" * k for k in (2, 9, 17, 18, 19, 20, 21, 25, 40, 100)] + ["9" * k for k in (18, 19, 20, 21, 30)] \
+        + ["0" * k + "300" for k in (1, 5, 17, 18, 19, 20, 30)] + [" 300", "300 ", "\t300"] + [str(2 ** 63), str(2 ** 64), str(2 ** 64 + 1)]
+    for sp in spellings:
+        for mcl in (10, 200):
+            for terminated in (False, True):
+                raw = SchedStream(b"a=" + b"x" * 20, [0])
+                env = {"REQUEST_METHOD": "POST", "CONTENT_TYPE": "application/x-www-form-urlencoded", "wsgi.input": raw,
+                       "SERVER_NAME": "x", "SERVER_PORT": "80", "wsgi.url_scheme": "http", "CONTENT_LENGTH": sp}
+                if terminated:
+                    env["wsgi.input_terminated"] = True
+                req = Request(env)
+                req.max_content_length = mcl
+                try:
+                    req.form  # noqa: B018
+                    res = "ok"
+                except RequestEntityTooLarge:
+                    res = "413"
+                except Exception as e:  # noqa: BLE001
+                    res = type(e).__name__
+                try:
+                    declared = int(sp) if sp.strip(" \t").isdigit() and sp == sp.strip() else None   # _plain_int: digits only
+                except ValueError:
+                    declared = None
+                chk.case(("decl", sp, mcl, terminated), True)
+                if declared is not None and declared > mcl and (res != "413" or raw.consumed > 0):
+                    chk.fail("declared-length-spelling", f"CONTENT_LENGTH {sp!r} (= {declared}) with max_content_length={mcl}: "
+                             f"{res}, {raw.consumed} bytes read (expected 413 before any read)",
+                             {"content_length": sp, "mcl": mcl, "terminated": terminated})
     # parse_form_data(environ, max_content_length=N) / FormDataParser.parse_from_environ: a server-terminated stream
     # (no usable Content-Length) is read at most N bytes; longer bodies raise RequestEntityTooLarge
     from werkzeug.formparser import parse_form_data
